@@ -342,3 +342,127 @@ def gen_c20(rng, tier, n):
             c = gen_junk(rng, tier)
         out.append(finish(c))
     return out
+
+
+# ------------------------------------------------------------------------------------------
+# C10: socket protocol (engine chan10)
+# ------------------------------------------------------------------------------------------
+ERRNOS = {
+    "socket": ["EMFILE", "ENFILE", "EACCES", "EAFNOSUPPORT"],
+    "connect": ["ECONNREFUSED", "ENETUNREACH", "EINTR", "EINTR", "EHOSTUNREACH", "EADDRNOTAVAIL"],
+    "sendto": ["EAGAIN", "ECONNREFUSED", "ENETUNREACH", "EPIPE", "EINTR"],
+    "recvfrom": ["EAGAIN", "ECONNREFUSED", "ECONNRESET", "EINTR"],
+    "setsockopt": ["ENOSYS", "EINVAL", "EPERM"],
+    "bind": ["EADDRINUSE", "EACCES"],
+    "getsockname": ["EBADF", "ENOTSOCK"],
+    "close": ["EIO", "EINTR"],
+}
+
+
+def gen_c10_one(rng, tier):
+    c = ["seed=%d" % rng.randint(1, 10 ** 6)]
+    nserv = rng.choice([1, 1, 2, 3])
+    c.append("servers=%d" % nserv)
+    if rng.random() < 0.2:
+        c.append("servers6=1")
+    flags = []
+    usevc = rng.random() < 0.3
+    if usevc:
+        flags.append("usevc")
+    if rng.random() < 0.3:
+        flags.append("stayopen")
+    if rng.random() < 0.5:
+        flags.append("noedns")
+    if rng.random() < 0.15:
+        flags.append("igntc")
+    if flags:
+        c.append("flags=" + ",".join(flags))
+    c.append("tries=%d timeout=1000" % rng.choice([1, 2, 3]))
+    if rng.random() < 0.5:
+        c.append("udpmaxq=%d" % rng.choice([1, 2, 3]))
+    sscb = rng.random() < 0.65
+    if sscb:
+        c.append("sockstatecb=1")
+    if rng.random() < 0.2:
+        c.append("tfo=1")
+    later = rng.random() < 0.15
+    if later:
+        c.append("connectlater=1")
+    if rng.random() < 0.3:
+        c.append("sndbuf=%d" % rng.choice([4096, 65536]))
+    if rng.random() < 0.3:
+        c.append("rcvbuf=%d" % rng.choice([4096, 65536]))
+    if rng.random() < 0.25:
+        c.append("localip4=10.7.7.7")
+    if rng.random() < 0.15:
+        c.append("localdev=eth0")
+    if rng.random() < 0.15:
+        c.append("wpat=%s" % rng.choice(["0,1000", "5", "1,0,7,1000"]))
+    if rng.random() < 0.15:
+        c.append("chunk=%s" % rng.choice(["1", "7", "2,0"]))
+    ops = []
+    T = 0
+    nsock_guess = 0
+    steps = rng.choice([3, 5, 8, 12, 20]) if tier == "quick" else rng.choice([5, 10, 20, 40])
+
+    def probe():
+        ops.append("qlen")
+        ops.append(rng.choice(["fds", "fds", "getsock"]))
+
+    for _ in range(steps):
+        r = rng.random()
+        if r < 0.30:
+            # a request, possibly with an injected failure at a socket call
+            if rng.random() < 0.45:
+                call = rng.choice(list(ERRNOS))
+                ops.append("fail %s %d %s" % (call, rng.choice([1, 1, 1, 2, 3]), rng.choice(ERRNOS[call])))
+            T += 1
+            kind = rng.random()
+            if kind < 0.7:
+                ops.append("send %d c%dx.example IN %s rd" % (T, T, rng.choice(["A", "AAAA", "TXT"])))
+            elif kind < 0.9:
+                ops.append("gai %d g%dx.example %s 0" % (T, T, rng.choice(["0", "4", "6"])))
+            else:
+                ops.append("search %d s%dx IN A rd" % (T, T))
+            nsock_guess += 1
+        elif r < 0.45:
+            spec = rng.choice(["an=A:10.1.1.%d" % rng.randint(1, 250), "an=A:10.1.1.1+A:10.1.1.2+AAAA:[fd00::5]",
+                               "rcode=SERVFAIL", "rcode=NXDOMAIN", "rcode=REFUSED", "tc=1", "an=AAAA:[fd00::7]"])
+            ops.append("rspall " + spec)
+            ops.append("run 300")
+        elif r < 0.55:
+            ops.append("run 300")
+        elif r < 0.63:
+            ops.append("adv %d" % rng.choice([500, 1000, 2000, 5000]))
+            ops.append("proct")
+        elif r < 0.70:
+            if later and nsock_guess > 0:
+                ops.append("%s s%d" % (rng.choice(["connected", "connected", "connfail"]), rng.randint(0, max(0, nsock_guess - 1))))
+                ops.append("run 300")
+            else:
+                ops.append("fail %s 1 %s" % ("recvfrom", rng.choice(ERRNOS["recvfrom"])))
+                ops.append("rspall an=A:10.2.2.2")
+                ops.append("run 300")
+        elif r < 0.76:
+            if nsock_guess > 0:
+                ops.append("%s s%d" % (rng.choice(["reset", "eof"]), rng.randint(0, max(0, nsock_guess - 1))))
+                ops.append("run 300")
+        elif r < 0.81:
+            ops.append("cancel")
+        elif r < 0.86:
+            ops.append("setservers " + rng.choice(["10.0.0.9", "10.0.0.1,10.0.0.8", "10.0.0.2", "-"]))
+        elif r < 0.89:
+            ops.append("reinit")
+        else:
+            probe()
+        if rng.random() < 0.25:
+            probe()
+    ops.append("run 300")
+    probe()
+    if rng.random() < 0.4:
+        ops.append("destroy")
+    return " ".join(c) + "|" + ";".join(ops)
+
+
+def gen_c10(rng, tier, n):
+    return [gen_c10_one(rng, tier) for _ in range(n)]
